@@ -160,7 +160,13 @@ func c17JudgeRT(c *mon.Ctx, in *c17RT) {
 	swapped := refaddr.EncodeBIP276(refaddr.BIP276{Prefix: in.Prefix, Version: in.Network, Network: in.Version, Data: in.Data})
 	var text string
 	if !c.Try("bscript.EncodeBIP276", func() {
-		text = bscript.EncodeBIP276(bscript.BIP276{Prefix: in.Prefix, Version: in.Version, Network: in.Network, Data: in.Data})
+		// the data is a sub-slice of a larger buffer: the encoder reads it, nothing more
+		arena := append(append(bytes.Repeat([]byte{0xC5}, 6), in.Data...), bytes.Repeat([]byte{0xC6}, 6)...)
+		arena0 := append([]byte{}, arena...)
+		text = bscript.EncodeBIP276(bscript.BIP276{Prefix: in.Prefix, Version: in.Version, Network: in.Network, Data: arena[6 : 6+len(in.Data)]})
+		if !bytes.Equal(arena, arena0) {
+			c.Violationf("C17:argument-memory-modified", "EncodeBIP276 modified the buffer holding its Data argument: now %x, was %x", arena, arena0)
+		}
 	}) {
 		return
 	}
